@@ -427,6 +427,9 @@ func fixedWorkloadTexts() []string {
 		"[upper(salt), lpad(salt, 'x', 14), replace(salt, 'g', 'G'), toFloat(salt), toString(saltn), timeFormat(t, salt), left(salt, 2) + right(salt, 2), find(salt, 'i'), len(salt)]",
 		"[saltn * 1.5, saltn % 7, round(saltn / 3), roundBank(saltn / 2), max(saltn, 10), sqrt(saltn), exp(saltn / 1000), ln(saltn + 1), date(2000 + saltn % 50, saltn % 12 + 1, 1), toInt(saltn / 7)]",
 		"$v = saltn + 1, [$v, salt + $v, typeof salt, fnA(salt), fnSV(salt, saltn, $v), useTimezone(t, saltn % 2 == 0 ? 'UTC' : 'Asia/Kolkata')]",
+		// redundant, directly nested parentheses (an evaluator or analysis that "looks through" them must not do so by rewriting the tree)
+		"((i + f64)) * ((i64)) + (((s))) + ((( (dec) )))",
+		"[((m)).a, ((st.Name)), (( ((i)) > 1 ? ((s)) : ((n)) ))]",
 		// a host function that asks for "its" runner (RunnerFromCtx): the one its caller put into the context, or none
 		"[whoami(), salt, whoami() == salt || whoami() == 'nobody', fnC(saltn) + 0]",
 		// deep trees: a 150-term sum, 40 nested calls, a 60-step conditional ladder (many evaluator frames in flight at once)
